@@ -165,7 +165,7 @@ Example vls_ex :
   eval Wgood [] ex_vls = Some ([7; 99], Throw (VStr [101])).
 Proof. repeat split; try (vm_compute; reflexivity); cbn; unfold two52; try lia; auto; left; lia. Qed.
 
-From V Require Import C03.TreeProofs11.
+From V Require Import C03.TreeProofs13 C03.TreeProofs11.
 (* mangle_if_equiv_partial / mangle_if_total on real rewrites in the effectful world Wgood:
      (g(), !b) ? f(g(), 1) : f(x.k, 1)   =>   g(), f(b ? x.k : g(), 1)
    (comma hoisted, negation flipped, the two calls merged through the recursive call), with the
@@ -182,6 +182,7 @@ Example mangle_if_equiv_ex :
   mangle_if (w_unbound Wgood) false true ex_mi_t ex_mi_y ex_mi_n = Some ex_mi_r /\
   (flags_ok Wgood ex_mi_t /\ flags_ok Wgood ex_mi_y /\ flags_ok Wgood ex_mi_n) /\
   (vls_ok ex_mi_t /\ vls_ok ex_mi_y /\ vls_ok ex_mi_n) /\ (no_hole_args ex_mi_y /\ no_hole_args ex_mi_n) /\
+  (spine_ok ex_mi_y /\ spine_ok ex_mi_n) /\
   eval Wgood [] (EIf ex_mi_t ex_mi_y ex_mi_n) = Some ([99; 7; 99], Val VUndef) /\
   eval Wgood [] ex_mi_r = Some ([99; 7; 99], Val VUndef) /\
   mangle_if (w_unbound Wgood) false true (EBin BLooseNe (EId 1 false false) ENull) (EId 1 false false) ex_mi_g
@@ -191,8 +192,24 @@ Proof.
   split; [cbn; repeat split; intros; try discriminate; exact I|].
   split; [cbn; unfold two52, two53; repeat split; try (right; lia); exact I|].
   split; [cbn; repeat split; try discriminate; exact I|].
+  split; [cbn; repeat split; auto|].
   repeat split; vm_compute; reflexivity.
 Qed.
+
+(* try_insert_optional_chain_sound_partial / mangle_if_equiv_partial with optional-chain insertion:
+   x != null ? x.k.l : undefined  =>  x?.k.l  (both getters logged), while over the parenthesized
+   chain  null == b ? undefined : (b.k?.l).m  nothing is inserted (fix 01a3711) *)
+Example mangle_if_chain_ex :
+  mangle_if (w_unbound Wgood) false false (EBin BLooseNe (EId 1 false false) ENull)
+    (EDot (EDot (EId 1 false false) [107] 0 false false) [108] 0 false false) EUndefined
+    = Some (EDot (EDot (EId 1 false false) [107] 1 false false) [108] 2 false false) /\
+  eval Wgood [] (EDot (EDot (EId 1 false false) [107] 1 false false) [108] 2 false false) = Some ([7; 7], Val (VObj 5)) /\
+  eval Wgood [] (EIf (EBin BLooseNe (EId 1 false false) ENull)
+                   (EDot (EDot (EId 1 false false) [107] 0 false false) [108] 0 false false) EUndefined)
+    = Some ([7; 7], Val (VObj 5)) /\
+  try_insert_optional_chain (EId 2 false false)
+    (EDot (EDot (EDot (EId 2 false false) [107] 0 false false) [108] 1 false false) [109] 0 false false) = None.
+Proof. repeat split; vm_compute; reflexivity. Qed.
 
 (* simplify_boolean_never_grows / simplify_unused_total on a real input: the left operand
    (g() ? 1 : 0) of an unused && shrinks to g() || false before it is simplified again *)
